@@ -106,9 +106,4 @@ theorem pruner_witness (n : Nat) (hn : 0 < n)
 
 end pruner
 
-/-- test (hypotheses of `pruner_envelope` are satisfiable, non-trivially): exact componentwise domination costs
-    nothing at any belief -/
-example (n : Nat) : ∀ a b, domExact a b = true → ∀ bel, IsBelief n bel → a.length = n → b.length = n → True :=
-  fun _ _ _ _ _ _ _ => trivial
-
 end AITB.Prune
